@@ -27,6 +27,7 @@ RULE = ("five case kinds. register: a device (three built-ins or generated: d_mi
         "that the documentation-derived reference deems valid must construct and render specs/print_specs/__doc__. "
         "non-trivial = distinct (case, kind) with an atom/pair/trap within 1e-5 of a limit, a count exactly at or one "
         "above a limit, or a device with at least one undefined optional limit")
+RULE += " Later additions: build(qubits=...) of a sequence on a mappable register is judged like sequence creation; with_automatic_layout of an exactly valid register may only fail with the documented RuntimeError."
 ASSUMPTIONS = ["pairs with d_min-1e-6 <= d < d_min (documented 1e-6 precision) give no verdict; neither do pairs within 1e-10 of "
                "the edges of that band, radii within 1e-9 (relative) of r_max unless all coordinates are integers, and "
                "fillings whose exact product traps*max_filling is within 1e-9 of an integer",
